@@ -8,7 +8,7 @@ PROOF_MODULES = ["GrpcProofs.Properties.C29"]
 THEOREMS = ["GrpcProofs.C29." + t for t in (
     "reach_inv", "never_idle_under_active_rpc", "enter_idle_only_without_active_rpc",
     "begin_returns_only_when_not_idle", "exit_only_when_balanced", "enter_only_after_exit",
-    "counter_in_range")]
+    "counter_in_range", "no_rpc_returns_during_exit_callback", "no_rpc_during_enter_callback")]
 DESIGN_REF = "DESIGN.md section 8, C29"
 TECHNIQUE = ("Lean 4 inductive invariant over a 40-rule interleaving model (counting abstraction: any number of goroutines), "
              "proved per rule with grind; tie T3: the real idle.Manager is stepped one atomic access at a time through yield "
@@ -47,7 +47,7 @@ def steps(t, n):
 
 
 # r1 begins while idle and completes OnCallBegin (8 steps), ends (4 steps)
-BEGIN_IDLE = steps("r1", 8)
+BEGIN_IDLE = steps("r1", 9)
 END = steps("r1", 4)
 # timer callback from quiescent non-idle state with act=1: isClosed, load cnt, load act, store act, load time, lock, isClosed/unlock, done
 TIMER_ACT = steps("t1", 8)
@@ -58,10 +58,12 @@ TIMER_TO_CAS = steps("t1", 5)
 def directed(rng):
     pre = BEGIN_IDLE + END + TIMER_ACT      # non-idle, no calls, act=0, timer thread idle
     yield pre + TIMER_TO_CAS + steps("r2", 8) + steps("t1", 6) + steps("r2", 4)            # RPC wins the lock after the CAS
-    yield pre + TIMER_TO_CAS + steps("r2", 3) + steps("t1", 4) + steps("r2", 8)            # timer wins the lock; RPC must exit idle
+    yield pre + TIMER_TO_CAS + steps("r2", 3) + steps("t1", 5) + steps("r2", 9)            # timer wins the lock; RPC must exit idle
+    yield steps("r1", 5) + steps("r2", 6) + steps("c1", 3) + steps("r1", 5) + steps("r2", 6)           # r1 parked INSIDE cc.ExitIdleMode while r2 / Connect start
+    yield pre + TIMER_TO_CAS + steps("t1", 4) + steps("r2", 5) + steps("t1", 2) + steps("r2", 9)       # timer parked INSIDE cc.EnterIdleMode while an RPC starts
     yield pre + TIMER_TO_CAS + steps("t1", 1) + steps("r2", 3) + steps("t1", 5) + steps("r2", 8)
     yield pre + steps("t1", 4) + steps("r2", 4) + steps("r2", 4) + steps("t1", 8)           # short RPC between the act load and the CAS
-    yield pre + TIMER_TO_CAS + steps("t1", 4) + steps("c1", 6) + steps("r1", 6)             # idle again, Connect exits
+    yield pre + TIMER_TO_CAS + steps("t1", 5) + steps("c1", 7) + steps("r1", 6)             # idle again, Connect exits
     yield pre + steps("t1", 3) + steps("t2", 3) + steps("t1", 3) + steps("t2", 6) + steps("t1", 6)   # two timer callbacks race
     yield pre + TIMER_TO_CAS + ["step k"] * 3 + steps("t1", 5) + steps("r2", 6)             # Close while entering idle
     yield BEGIN_IDLE[:3] + steps("r2", 3) + steps("r1", 5) + steps("r2", 6) + steps("c1", 5)  # two RPCs + Connect race to exit idle
